@@ -1,6 +1,7 @@
 package main
 
 import (
+	"go/token"
 	"fmt"
 	"go/ast"
 	"go/types"
@@ -315,6 +316,18 @@ func init() {
 		st.assume(fmt.Sprintf("(forall ((i Int)) (! (=> (and (<= 0 i) (< i %s)) (and (<= 0 (%s i)) (< (%s i) %s) (= (select %s i) (select %s (%s i))) (= (%s (%s i)) i))) :pattern ((select %s i)) :pattern ((%s i))))", n, pf, pf, n, slEl(ns), slEl(s), pf, qf, pf, slEl(ns), pf))
 		st.assume(fmt.Sprintf("(forall ((j Int)) (! (=> (and (<= 0 j) (< j %s)) (and (<= 0 (%s j)) (< (%s j) %s) (= (select %s j) (select %s (%s j))) (= (%s (%s j)) j))) :pattern ((%s j)) :pattern ((select %s j))))", n, qf, qf, n, slEl(s), slEl(ns), qf, pf, qf, qf, slEl(s)))
 		fc.assumed["slices.SortStableFunc / sort.*: result is a permutation of the input (sortedness not modelled)"] = true
+		// the natural-order sorts of strings and integers also leave the slice ascending
+		switch fc.calleeName(e) {
+		case "sort.Strings", "sort.Ints", "slices.Sort":
+			if s.S.Elem != nil && s.S.Elem.Kind == KStr {
+				fc.U.Fun("str_lt", []*Sort{SStr, SStr}, SBool)
+				st.assume(fmt.Sprintf("(forall ((i Int) (j Int)) (! (=> (and (<= 0 i) (< i j) (< j %s)) (not (str_lt (select %s j) (select %s i)))) :pattern ((select %s i) (select %s j))))", n, slEl(ns), slEl(ns), slEl(ns), slEl(ns)))
+				fc.assumed["sort.Strings / slices.Sort: the result is in ascending order (standard library)"] = true
+			} else if s.S.Elem != nil && s.S.Elem.Kind == KInt {
+				st.assume(fmt.Sprintf("(forall ((i Int) (j Int)) (! (=> (and (<= 0 i) (< i j) (< j %s)) (<= (select %s i) (select %s j))) :pattern ((select %s i) (select %s j))))", n, slEl(ns), slEl(ns), slEl(ns), slEl(ns)))
+				fc.assumed["sort.Ints / slices.Sort: the result is in ascending order (standard library)"] = true
+			}
+		}
 		fc.assignOut(e.Args[0], ns, st)
 		return nil
 	}
@@ -325,6 +338,143 @@ func init() {
 	intrinsics["sort.Strings"] = sortPerm
 	intrinsics["sort.Ints"] = sortPerm
 	intrinsics["slices.Sort"] = sortPerm
+	// slices.Contains / slices.Index: assumed contracts of the standard library (first index of an equal element, -1
+	// if there is none); elements are compared with SMT equality, which is Go's == for the scalar, string and struct
+	// element types in the subset.
+	elAt := func(fc *FCtx, s Val, j string) string {
+		if isBz(s.S) {
+			return fmt.Sprintf("(bz_at %s %s)", s.T, j)
+		}
+		return fmt.Sprintf("(select %s %s)", slEl(s), j)
+	}
+	seqLen := func(fc *FCtx, s Val) string {
+		if isBz(s.S) {
+			return app("bz_len", s.T)
+		}
+		if s.S.Kind != KSlice {
+			oos("slices function on %s", s.S.Name)
+		}
+		return slLen(s)
+	}
+	slIndex := func(fc *FCtx, st *State, e *ast.CallExpr, a []Val) string {
+		n := seqLen(fc, a[0])
+		idx := fc.U.Fresh("sidx", SInt)
+		fc.U.fresh++
+		j := fmt.Sprintf("sj%d", fc.U.fresh)
+		st.assume(fmt.Sprintf("(and (<= (- 1) %s) (< %s %s))", idx, idx, n))
+		st.assume(fmt.Sprintf("(=> (>= %s 0) (= %s %s))", idx, elAt(fc, a[0], idx), a[1].T))
+		st.assume(fmt.Sprintf("(forall ((%s Int)) (! (=> (and (<= 0 %s) (< %s (ite (>= %s 0) %s %s))) (not (= %s %s))) :pattern (%s)))", j, j, j, idx, idx, n, elAt(fc, a[0], j), a[1].T, elAt(fc, a[0], j)))
+		fc.assumed["slices.Contains / slices.Index: first index of an equal element, -1 if none (standard library)"] = true
+		return idx
+	}
+	intrinsics["slices.Index"] = func(fc *FCtx, st *State, e *ast.CallExpr, r *Val, a []Val) []Val {
+		return []Val{{T: slIndex(fc, st, e, a), S: SInt, GoT: types.Typ[types.Int]}}
+	}
+	intrinsics["slices.Contains"] = func(fc *FCtx, st *State, e *ast.CallExpr, r *Val, a []Val) []Val {
+		return bv(fmt.Sprintf("(>= %s 0)", slIndex(fc, st, e, a)))
+	}
+	intrinsics["bytes.IndexByte"] = func(fc *FCtx, st *State, e *ast.CallExpr, r *Val, a []Val) []Val {
+		return []Val{{T: slIndex(fc, st, e, a), S: SInt, GoT: types.Typ[types.Int]}}
+	}
+	// sort.Search(n, f): some index in [0, n] (the smallest index at which a monotone predicate turns true; the predicate
+	// is a function value and is not interpreted - the over-approximation keeps only the range). The predicate literal
+	// must not assign to captured variables.
+	intrinsics["sort.Search"] = func(fc *FCtx, st *State, e *ast.CallExpr, r *Val, a []Val) []Val {
+		if lit, ok := unparen(e.Args[1]).(*ast.FuncLit); ok {
+			ast.Inspect(lit.Body, func(n ast.Node) bool {
+				switch n.(type) {
+				case *ast.AssignStmt, *ast.IncDecStmt, *ast.GoStmt, *ast.DeferStmt, *ast.SendStmt:
+					oos("sort.Search predicate with side effects")
+				}
+				return true
+			})
+		}
+		idx := fc.U.Fresh("ssearch", SInt)
+		st.assume(fmt.Sprintf("(and (<= 0 %s) (<= %s (imax 0 %s)))", idx, idx, a[0].T))
+		fc.assumed["sort.Search: result in [0, n] (the predicate is not interpreted)"] = true
+		return []Val{{T: idx, S: SInt, GoT: types.Typ[types.Int]}}
+	}
+	// slices.Insert(s, i, v...) / slices.Delete(s, i, j): the standard-library contracts on element positions
+	intrinsics["slices.Insert"] = func(fc *FCtx, st *State, e *ast.CallExpr, r *Val, a []Val) []Val {
+		s, i := a[0], a[1]
+		if s.S.Kind != KSlice || e.Ellipsis.IsValid() {
+			oos("slices.Insert on %s", s.S.Name)
+		}
+		k := len(a) - 2
+		n := slLen(s)
+		fc.panicCheck(st, "slice-bounds", fmt.Sprintf("(and (<= 0 %s) (<= %s %s))", i.T, i.T, n), e.Pos())
+		ns := Val{T: fc.U.Fresh("inserted", s.S), S: s.S, GoT: s.GoT}
+		st.assume(fmt.Sprintf("(and (= %s (+ %s %d)) (<= %s %s) (<= %s 9223372036854775807))", slLen(ns), n, k, slLen(ns), slCap(ns), slCap(ns)))
+		st.assume(fmt.Sprintf("(forall ((j Int)) (! (=> (and (<= 0 j) (< j %s)) (= (select %s j) (select %s j))) :pattern ((select %s j))))", i.T, slEl(ns), slEl(s), slEl(ns)))
+		for x := 0; x < k; x++ {
+			st.assume(fmt.Sprintf("(= (select %s (+ %s %d)) %s)", slEl(ns), i.T, x, a[2+x].T))
+		}
+		st.assume(fmt.Sprintf("(forall ((j Int)) (! (=> (and (<= (+ %s %d) j) (< j (+ %s %d))) (= (select %s j) (select %s (- j %d)))) :pattern ((select %s j))))", i.T, k, n, k, slEl(ns), slEl(s), k, slEl(ns)))
+		fc.assumed["slices.Insert / slices.Delete: element positions as documented (standard library)"] = true
+		return []Val{ns}
+	}
+	intrinsics["slices.Delete"] = func(fc *FCtx, st *State, e *ast.CallExpr, r *Val, a []Val) []Val {
+		s, i, j := a[0], a[1], a[2]
+		if s.S.Kind != KSlice {
+			oos("slices.Delete on %s", s.S.Name)
+		}
+		n := slLen(s)
+		fc.panicCheck(st, "slice-bounds", fmt.Sprintf("(and (<= 0 %s) (<= %s %s) (<= %s %s))", i.T, i.T, j.T, j.T, n), e.Pos())
+		ns := Val{T: fc.U.Fresh("deleted", s.S), S: s.S, GoT: s.GoT}
+		st.assume(fmt.Sprintf("(and (= %s (- %s (- %s %s))) (= %s %s))", slLen(ns), n, j.T, i.T, slCap(ns), slCap(s)))
+		st.assume(fmt.Sprintf("(forall ((q Int)) (! (=> (and (<= 0 q) (< q %s)) (= (select %s q) (ite (< q %s) (select %s q) (select %s (+ q (- %s %s)))))) :pattern ((select %s q))))", slLen(ns), slEl(ns), i.T, slEl(s), slEl(s), j.T, i.T, slEl(ns)))
+		fc.assumed["slices.Insert / slices.Delete: element positions as documented (standard library)"] = true
+		return []Val{ns}
+	}
+	// sync/atomic on an int64 field (thread-modular): AddInt64(&x, d) with d >= 0 returns SOME value >= x + d, because
+	// other goroutines may have added to the counter in between - the rely condition, listed as an assumption, is that
+	// concurrent updates of the counter are additions of non-negative amounts (and that it does not overflow). The field
+	// holds the returned value afterwards. StoreInt64 writes, LoadInt64 reads some value >= the last one seen.
+	atomTarget := func(fc *FCtx, e *ast.CallExpr) ast.Expr {
+		u, ok := unparen(e.Args[0]).(*ast.UnaryExpr)
+		if !ok || u.Op != token.AND {
+			oos("atomic operation on a non-addressable target")
+		}
+		return u.X
+	}
+	intrinsics["sync/atomic.AddInt64"] = func(fc *FCtx, st *State, e *ast.CallExpr, r *Val, a []Val) []Val {
+		tgt := atomTarget(fc, e)
+		cur := fc.eval(tgt, st)
+		d := a[1]
+		fc.oblige(st, "atomic-add-nonneg", fmt.Sprintf("(>= %s 0)", d.T), "atomic.AddInt64 with a non-negative amount (the thread-modular model covers counters that only grow)", e.Pos())
+		nv := Val{T: fc.U.Fresh("atom", SInt), S: SInt, GoT: types.Typ[types.Int64]}
+		st.assume(fmt.Sprintf("(and (>= %s (+ %s %s)) (in_int64 %s))", nv.T, cur.T, d.T, nv.T))
+		fc.assumed["sync/atomic counter: concurrent updates are additions of non-negative amounts; no int64 overflow"] = true
+		fc.assignTo(tgt, nv, st)
+		return []Val{nv}
+	}
+	intrinsics["sync/atomic.StoreInt64"] = func(fc *FCtx, st *State, e *ast.CallExpr, r *Val, a []Val) []Val {
+		fc.assignTo(atomTarget(fc, e), Val{T: a[1].T, S: SInt, GoT: types.Typ[types.Int64]}, st)
+		return nil
+	}
+	intrinsics["sync/atomic.LoadInt64"] = func(fc *FCtx, st *State, e *ast.CallExpr, r *Val, a []Val) []Val {
+		tgt := atomTarget(fc, e)
+		cur := fc.eval(tgt, st)
+		nv := Val{T: fc.U.Fresh("atom", SInt), S: SInt, GoT: types.Typ[types.Int64]}
+		st.assume(fmt.Sprintf("(and (>= %s %s) (in_int64 %s))", nv.T, cur.T, nv.T))
+		fc.assumed["sync/atomic counter: concurrent updates are additions of non-negative amounts; no int64 overflow"] = true
+		fc.assignTo(tgt, nv, st)
+		return []Val{nv}
+	}
+	// slices.Reverse: in place, element i becomes element n-1-i
+	intrinsics["slices.Reverse"] = func(fc *FCtx, st *State, e *ast.CallExpr, r *Val, a []Val) []Val {
+		s := a[0]
+		if s.S.Kind != KSlice {
+			oos("slices.Reverse of %s", s.S.Name)
+		}
+		ns := Val{T: fc.U.Fresh("reversed", s.S), S: s.S, GoT: s.GoT}
+		n := slLen(s)
+		st.assume(fmt.Sprintf("(and (= %s %s) (= %s %s))", slLen(ns), n, slCap(ns), slCap(s)))
+		st.assume(fmt.Sprintf("(forall ((i Int)) (! (=> (and (<= 0 i) (< i %s)) (= (select %s i) (select %s (- (- %s 1) i)))) :pattern ((select %s i))))", n, slEl(ns), slEl(s), n, slEl(ns)))
+		fc.assumed["slices.Reverse: element i becomes element n-1-i (standard library)"] = true
+		fc.assignOut(e.Args[0], ns, st)
+		return nil
+	}
 }
 
 func init() {
@@ -336,6 +486,35 @@ func init() {
 		}
 	}
 	p := "(*math/big.Int)."
+	// z.Op(x, y) SETS z and returns it: when the receiver is a local variable it is updated (statement form
+	// `num.Mul(x, num)`); a receiver that is a fresh value (new(big.Int)) has nothing to update. Two variables holding
+	// the same *big.Int are not tracked (values, not pointers).
+	defer func() {
+		for _, m := range []string{"Add", "Sub", "Mul", "Div", "Mod", "Quo", "Rem", "Set", "SetUint64", "SetInt64", "Rsh", "Lsh", "ModInverse", "Neg", "Abs", "Exp"} {
+			f, ok := I[p+m]
+			if !ok {
+				continue
+			}
+			I[p+m] = func(fc *FCtx, st *State, e *ast.CallExpr, r *Val, a []Val) []Val {
+				res := f(fc, st, e, r, a)
+				if sel, isSel := unparen(e.Fun).(*ast.SelectorExpr); isSel && len(res) == 1 {
+					if id, isID := unparen(sel.X).(*ast.Ident); isID {
+						if obj := fc.info().ObjectOf(id); obj != nil {
+							if _, has := st.vars[obj]; has {
+								fc.assignTo(id, res[0], st)
+							}
+						}
+					}
+				}
+				return res
+			}
+		}
+	}()
+	// modular inverse: an uninterpreted function with its defining property for a unit (g*inv = 1 mod n)
+	I[p+"ModInverse"] = func(fc *FCtx, st *State, e *ast.CallExpr, r *Val, a []Val) []Val {
+		fc.U.Fun("modinv", []*Sort{SInt, SInt}, SInt)
+		return bigr(fc, e, app("modinv", a[0].T, a[1].T))
+	}
 	I[p+"Add"] = op2("+")
 	I[p+"Sub"] = op2("-")
 	I[p+"Mul"] = op2("*")
